@@ -58,13 +58,9 @@ Record flags := Flags {
   f_equal : bool      (* C19_1, owned by Value/ValueModel.v *)
 }.
 
-(* value.Equal: DEFECT C19_1 is owned by Value/ValueModel.v (switch
-   [defect_C19_1], patch fixes/C19_1_*.diff, committed to /repo as b28d6aa).
-   [equal_gen] is called with an explicit flag, so this line is the C12 side
-   of that switch and does not have to change in lock-step with ValueModel. *)
-Definition defect_C19_1_in_repo : bool := false.
-
-Definition cur_flags : flags := Flags defect_C12_1 defect_C12_2 defect_C12_3 defect_C19_1_in_repo.
+(* value.Equal is the one of Value/ValueModel.v ([equal_gen] under its switch
+   [defect_C19_1], final now: off, patch committed as b28d6aa). *)
+Definition cur_flags : flags := Flags defect_C12_1 defect_C12_2 defect_C12_3 defect_C19_1.
 Definition fixed_flags : flags := Flags false false false false.
 Definition all_defects : flags := Flags true true true true.
 
